@@ -132,7 +132,9 @@ def run(ctx):
     marks = [(n_, c) for (n_, c) in vrc.calls(lambda c: isinstance(c.func, ast.Attribute) and c.func.attr == "add"
                                               and "invalid_original_rows" in norm(c.func.value))]
     for n_, c in marks:
-        g = vrc.guard_for(n_, lambda t: mentions(t, "check_for_any_errors"))
+        rdc = ReachingDefs(rc)
+        is_err_test = lambda y: isinstance(y, ast.Call) and call_name(y) == "check_for_any_errors"
+        g = vrc.guard_for(n_, lambda t: depends_on(rdc, t, t, is_err_test))
         ctx.check(g is not None and g[1] is True, "R7.6", rc.qualname, c, loc(rc, c),
                   "the row is marked as failed (and skipped by the full-row and temporal checks) without an error-severity test "
                   "of its cell issues: a row whose cells only draw warnings loses its row-level errors and its Onset/Offset markers",
